@@ -12,7 +12,9 @@ type GEDCOMFormatter struct {
 	Writer io.Writer
 }
 
-func (f *GEDCOMFormatter) Write(result interface{}) error {
+func (f *GEDCOMFormatter) Write(result interface{}) (err error) {
+	defer recoverWriteError(&err)
+
 	// Nil should be treated as a blank document.
 	if gedcom.IsNil(result) {
 		return nil
